@@ -49,10 +49,14 @@ type Cfg struct {
 	Publish         bool     `json:"publish"`   // a newer snapshot of instance b may be published during the run
 	Vanish          bool     `json:"vanish"`    // the newest snapshot of an instance may be cleaned between listing and download
 	Polls           int      `json:"polls"`     // number of storage polls after the first listing
-	SlowConsumer    bool     `json:"slow"`      // consumer scheduling is part of the interleaving (else it consumes eagerly)
-	DB              string   `json:"db"`
-	FinePoints      bool     `json:"fine"` // also park before every token acquisition and at the top of every load attempt
-	OwnSnapshot     bool     `json:"own"`  // the own instance has a snapshot in the bucket (downloaded once at start-up)
+	// LateConsumer: the merge loop is busy elsewhere for the whole explored part (delivered snapshots stay pending in the
+	// receiver and can be superseded); it drains in the closing phase. PublishCorrupt: instance b may publish a newer,
+	// undecodable blob.
+	LateConsumer   bool   `json:"late_consumer"`
+	PublishCorrupt bool   `json:"publish_corrupt"`
+	DB             string `json:"db"`
+	FinePoints     bool   `json:"fine"` // also park before every token acquisition and at the top of every load attempt
+	OwnSnapshot    bool   `json:"own"`  // the own instance has a snapshot in the bucket (downloaded once at start-up)
 }
 
 type Viol struct{ Sig, Msg string }
@@ -239,6 +243,7 @@ func Run(cfg Cfg, ctx *explore.Ctx) Result {
 	produced, polledAt := 0, -1  // snapshots handed to the receiver / value of produced at the consumer's last empty poll
 	polls := 0
 	published, vanished, republished, olderCleaned := false, false, false, false
+	publishedCorrupt := false
 	progress := true // something other than the receiver's own poll happened since the last storage poll
 	script := append([]string{}, cfg.Script...)
 	maxDL, maxDC := 0.0, 0.0
@@ -268,6 +273,9 @@ func Run(cfg Cfg, ctx *explore.Ctx) Result {
 			if p.Point == "sleep.retry" && retried[p.Thread] {
 				continue // timers are fair: a storage poll (1 s) fires before the same retry timer (5 s) fires again
 			}
+			if p.Point == "consumer.stalled" {
+				continue // the merge loop is busy elsewhere until the closing phase
+			}
 			if p.Point == "consumer.idle" && polledAt == produced {
 				continue // nothing new since the consumer's last empty poll
 			}
@@ -296,6 +304,12 @@ func Run(cfg Cfg, ctx *explore.Ctx) Result {
 				out = append(out, sched.Choice{Label: "c-publishes-again", Cost: 1, Act: &sched.Action{Do: func() {
 					republished = true
 					put("c", 4, false)
+				}}})
+			}
+			if cfg.PublishCorrupt && !publishedCorrupt {
+				out = append(out, sched.Choice{Label: "publish-corrupt-newer-b", Cost: 1, Act: &sched.Action{Do: func() {
+					publishedCorrupt = true
+					put("b", 5, true) // later than anything else b publishes
 				}}})
 			}
 			if cfg.Publish && !published && !cfg.CleanOlder {
@@ -367,6 +381,9 @@ func Run(cfg Cfg, ctx *explore.Ctx) Result {
 		_ = r.Run(rctx)
 	})
 	s.Go("consumer", func() {
+		if cfg.LateConsumer {
+			s.Park("consumer.stalled", "", nil)
+		}
 		for !stopConsumer {
 			instance, u := r.Next()
 			if instance == "" {
